@@ -187,23 +187,25 @@ func emVMEffects(c *Ctx) map[string]vmEffect {
 		}
 		ast.Inspect(m.Body, func(n ast.Node) bool {
 			as, ok := n.(*ast.AssignStmt)
-			if !ok || len(as.Lhs) != 1 || len(as.Rhs) != 1 {
+			if !ok || len(as.Lhs) != len(as.Rhs) {
 				return true
 			}
-			fv := fieldOfRecv(m, as.Lhs[0])
-			if fv == nil {
-				return true
-			}
-			if cands[fv] == nil {
-				cands[fv] = &fieldOps{}
-			}
-			switch r := ast.Unparen(as.Rhs[0]).(type) {
-			case *ast.CallExpr:
-				if id, ok := r.Fun.(*ast.Ident); ok && id.Name == "append" {
-					cands[fv].app++
+			for i, l := range as.Lhs {
+				fv := fieldOfRecv(m, l)
+				if fv == nil {
+					continue
 				}
-			case *ast.SliceExpr:
-				cands[fv].cut++
+				if cands[fv] == nil {
+					cands[fv] = &fieldOps{}
+				}
+				switch r := ast.Unparen(as.Rhs[i]).(type) {
+				case *ast.CallExpr:
+					if id, ok := r.Fun.(*ast.Ident); ok && id.Name == "append" {
+						cands[fv].app++
+					}
+				case *ast.SliceExpr:
+					cands[fv].cut++
+				}
 			}
 			return true
 		})
@@ -222,7 +224,7 @@ func emVMEffects(c *Ctx) map[string]vmEffect {
 	}
 	// stackOp: the effect of `recv.F = ...` on the operand stack (ok=false: not an operation on it)
 	stackOp := func(as *ast.AssignStmt, recv types.Object, walked ast.Node) (pushes, pops int, ok bool) {
-		if len(as.Lhs) != 1 || len(as.Rhs) != 1 || recv == nil {
+		if len(as.Lhs) != len(as.Rhs) || recv == nil {
 			return 0, 0, false
 		}
 		onField := func(x ast.Expr) bool {
@@ -233,17 +235,30 @@ func emVMEffects(c *Ctx) map[string]vmEffect {
 			id, ok := ast.Unparen(sel.X).(*ast.Ident)
 			return ok && info.Uses[id] == recv
 		}
-		if !onField(as.Lhs[0]) {
+		// the pair of a (possibly parallel) assignment that writes the stack field
+		at := -1
+		for i, l := range as.Lhs {
+			if onField(l) {
+				at = i
+			}
+		}
+		if at < 0 {
 			return 0, 0, false
 		}
-		switch r := ast.Unparen(as.Rhs[0]).(type) {
+		switch r := ast.Unparen(as.Rhs[at]).(type) {
 		case *ast.CallExpr:
 			if id, isId := r.Fun.(*ast.Ident); isId && id.Name == "append" && len(r.Args) >= 1 && onField(r.Args[0]) && !r.Ellipsis.IsValid() {
 				return len(r.Args) - 1, 0, true
 			}
 		case *ast.SliceExpr:
 			// F[:len(F)-k], the bound possibly held in a local (`top := len(F) - 1; F = F[:top]`)
-			if onField(r.X) && r.Low == nil && r.High != nil {
+			lowZero := r.Low == nil
+			if r.Low != nil {
+				if tv, has := info.Types[r.Low]; has && tv.Value != nil && constant.Sign(constant.ToInt(tv.Value)) == 0 {
+					lowZero = true
+				}
+			}
+			if onField(r.X) && lowZero && r.High != nil {
 				// lenForm: x = len(F)·c + k
 				var lenForm func(x ast.Expr, depth int) (c, k int, ok bool)
 				lenForm = func(x ast.Expr, depth int) (int, int, bool) {
